@@ -243,7 +243,7 @@ theorem op_ok (ns : Bool) (op : EditOp) (t t' : T) (h : Inv ns t) (hp : opPre ns
   | removeSingle =>
     simp only [applyOp, Gotree.C05.Res.ok.injEq] at ho
     subst ho
-    exact ⟨(Gotree.C15.removeSingle_tips t).nodup_iff.mpr hu, fun _ => (Gotree.C15.removeSingle_noSingle t).1⟩
+    exact ⟨(Gotree.C15.removeSingle_tips' t).nodup_iff.mpr hu, fun _ => Gotree.C15.removeSingle_noSingle' t⟩
   | clone =>
     simp only [applyOp, Gotree.C05.Res.ok.injEq] at ho
     subst ho
@@ -257,10 +257,7 @@ theorem op_ok (ns : Bool) (op : EditOp) (t t' : T) (h : Inv ns t) (hp : opPre ns
     | ok t₂ =>
       simp only [hm, Gotree.C05.Res.ok.injEq] at ho
       subst ho
-      obtain ⟨htips, _, _, hdis, _⟩ := Gotree.C15.merge_tips true true t t2 _ hm
-      refine ⟨?_, fun hpr => ?_⟩
-      · rw [htips]
-        exact List.nodup_append.mpr ⟨hu, hp.1, fun a ha b hb hab => hdis a ha (hab ▸ hb)⟩
+      refine ⟨merge_nodup_c03 hm hu hp.1, fun hpr => ?_⟩
       · simp only [promised] at hpr
         have h2 : t2.noSingle = true := by
           rcases hp.2 with h | h
@@ -352,7 +349,7 @@ theorem op_ok (ns : Bool) (op : EditOp) (t t' : T) (h : Inv ns t) (hp : opPre ns
       simp only [hgr, Gotree.C05.Res.ok.injEq] at ho
       subst ho
       refine ⟨?_, fun hpr => ?_⟩
-      · refine (Gotree.C15.graft_tips true t g _ tip hgr).nodup_iff.mpr ?_
+      · refine (graft_tips_c03 hgr).nodup_iff.mpr ?_
         refine List.nodup_append.mpr ⟨hu.erase tip, hgn, fun a ha b hb hab => ?_⟩
         subst hab
         have h1 := hdis a hb
@@ -381,7 +378,7 @@ theorem op_ok (ns : Bool) (op : EditOp) (t t' : T) (h : Inv ns t) (hp : opPre ns
         have hne : ∀ g ∈ groups, "" ∉ g := fun g hg hm => by
           have := hp g hg
           simp [hm] at this
-        exact ⟨(Gotree.C15.insertIdentical_tips t _ groups hi hu hne).1,
+        exact ⟨insertIdentical_nodup_c03 hi hu hne,
           fun hpr => insertIdentical_ns hi (hns hpr)⟩
   | outgroup remove strict S =>
     simp only [applyOp] at ho
